@@ -8,6 +8,7 @@ import (
 	"fmt"
 	"os"
 	"os/exec"
+	"runtime/debug"
 	"runtime"
 	"sort"
 	"strconv"
@@ -103,6 +104,7 @@ func workerMain(args []string) int {
 	isolate := fs.Bool("isolate", false, "execute every run in a process of its own")
 	fs.Parse(args)
 	runtime.GOMAXPROCS(envInt("VERIF_PROCS", 1))
+	applyGCStress()
 	skipSet := map[int]bool{}
 	for _, x := range strings.Split(*skip, ",") {
 		if n, err := strconv.Atoi(x); err == nil {
@@ -340,6 +342,7 @@ func execMain(args []string) int {
 	verbose := fs.Bool("v", false, "")
 	fs.Parse(args)
 	runtime.GOMAXPROCS(envInt("VERIF_PROCS", 1))
+	applyGCStress()
 	var rf ReplayFile
 	if err := readJSON(*path, &rf); err != nil || rf.Trace == nil {
 		var tr Trace
@@ -519,4 +522,14 @@ func secondPass(tr *Trace, known string, tag string) (v *Violation, tx uint64, s
 	}
 	_ = err
 	return nil, 0, nil, true
+}
+
+// applyGCStress turns the background collector on at an aggressive setting
+// (VERIF_GCPERCENT). This mode is NOT deterministic — the collector marks
+// concurrently with the operations, on its own schedule — and is used only as a
+// supplementary batch of C18 whose findings must reproduce on re-execution.
+func applyGCStress() {
+	if p := envInt("VERIF_GCPERCENT", 0); p > 0 {
+		debug.SetGCPercent(p)
+	}
 }
